@@ -131,7 +131,15 @@ def card_requests(ctx, include=("adders", "pop", "assert")):
                 fresh = n + rng.randint(0, 2)
                 xs = gen_lits(rng, n, max(fresh, 1), allow_neg=(n % 3 == 0))
                 yield {"op": "card", "m": "pop_count", "fresh": max(fresh, 1), "xs": xs, "sat": sat}
+        # widths around the powers of two up to 128 (where the padding to the next power of two changes)
+        for n in (15, 16, 17, 31, 32, 33, 34, 63, 64, 65, 66, 67, 127, 128, 129, 130, 133):
+            for sat in (0, 3):
+                yield {"op": "card", "m": "pop_count", "fresh": n, "xs": list(range(1, n + 1)), "sat": sat}
     if "assert" in include:
+        for n in (33, 65, 66, 129):
+            for k in (1, n - 1):
+                for m in ("assert_eq", "assert_lt", "assert_gt"):
+                    yield {"op": "card", "m": m, "fresh": n, "xs": list(range(1, n + 1)), "k": k}
         maxn = 9 if big else 7
         maxk = 40 if big else 18
         for n in range(0, maxn + 1):
